@@ -16,6 +16,7 @@ import (
 // verifErrCode renders an error as a small stable token: "ok", "k<kafka error code>", the transient
 // network errors by name, "deadline", "closed", "ctx" or "other".  It does not use isTemporary /
 // isTransientNetworkError: the classification is the model's business.
+// ("othertmp" instead of "other": an error without a name that declares itself Temporary().)
 func verifErrCode(err error) string {
 	var ke Error
 	switch {
@@ -37,6 +38,12 @@ func verifErrCode(err error) string {
 		return "ctx"
 	case errors.Is(err, io.ErrClosedPipe):
 		return "closed"
+	}
+	// an error without a name of its own: report whether it declares itself temporary (e.g. a connection's
+	// i/o timeout), the one fact about it the retry loop looks at
+	var te interface{ Temporary() bool }
+	if errors.As(err, &te) && te.Temporary() {
+		return "othertmp"
 	}
 	return "other"
 }
